@@ -80,10 +80,11 @@ def containers(case):
 def enc_for(case):
     GL.reset_caches()
     enc = GL.Enc()
-    for n, vs in case["universe"].items():
-        for v, reqs in vs.items():
-            for t in reqs:
-                enc.table.ids_of(GL.P(t))
+    for U in (case["universe"], case.get("front") or {}):
+        for n, vs in U.items():
+            for v, reqs in vs.items():
+                for t in reqs:
+                    enc.table.ids_of(GL.P(t))
     for rs in case["inputs"] + case["constraints"]:
         for t in rs:
             enc.table.ids_of(GL.P(t))
@@ -98,14 +99,14 @@ def enc_for(case):
 class Run:
     """One execution of the real perform_compile."""
 
-    def __init__(self, case):
+    def __init__(self, case, repo=None):
         from req_compile.compile import perform_compile
         from req_compile.errors import NoCandidateException, MetadataError
         import req_compile.dists as D
         self.case = case
         self.enc, self.ne = enc_for(case)
         ins, cons = containers(case)
-        self.repo = GL.MemRepo.create(case["universe"])
+        self.repo = repo if repo is not None else GL.MemRepo.create(case["universe"])
         self.outcome = None
         self.graph = None
         self.roots = None
@@ -198,7 +199,11 @@ def model_request(case, r):
     for n, vs in case["universe"].items():
         universe.append({"key": GL.norm(n), "versions": [
             {"rank": enc.rank[str(GL.V(v))], "meta": enc.meta(DistInfo(n, GL.V(v), [GL.P(t) for t in reqs]))} for v, reqs in vs.items()]})
-    return {"op": "compile", "acc": enc.acc(), "orders": enc.orders(), "universe": universe, "possible": r["possible"], "ne": ne,
+    front = []
+    for n, vs in (case.get("front") or {}).items():
+        front.append({"key": GL.norm(n), "versions": [
+            {"rank": enc.rank[str(GL.V(v))], "meta": enc.meta(DistInfo(n, GL.V(v), [GL.P(t) for t in reqs]))} for v, reqs in vs.items()]})
+    return {"op": "compile", "acc": enc.acc(), "orders": enc.orders(), "universe": universe, "front": front, "possible": r["possible"], "ne": ne,
             "inputs": [enc.meta(c) for c in ins],
             "constraints": [{"meta": enc.meta(c), "pinned": [bool(is_pinned_requirement(q)) for q in c.reqs]} for c in cons],
             "removeConstraints": case["remove_constraints"]}
